@@ -25,6 +25,7 @@ class Opt:
     called_lambda: bool = True
     kw_called_lambda: bool = True
     comps: bool = False
+    comp_rate: float = 0.0  # extra probability of a comprehension wherever a sequence is wanted
     packs: bool = True  # tuples / lists / dicts + constant projection
     first: bool = True
     aggregates: bool = True  # Count/len/Sum/Max/Min
@@ -352,6 +353,8 @@ class Gen:
         if p:
             return p
         r = self.rng.random()
+        if self.opt.comps and self.rng.random() < self.opt.comp_rate:
+            r = 0.95
         if r < 0.2:
             return self.seq_base(el, scope, d)
         if r < 0.5:
